@@ -12,6 +12,7 @@ import (
 
 	"ocivet/internal/core"
 	"ocivet/internal/facts"
+	"ocivet/internal/load"
 )
 
 // Prop is one property's checker.
@@ -349,6 +350,157 @@ func nonNilGuarded(b *ssa.BasicBlock, tm string) bool {
 		}
 	}
 	return false
+}
+
+// nonNilGuardedUp: v is guarded by `!= nil` on all paths to block b — in b's
+// function, or, when that function is a private helper (unexported, only ever
+// called statically), at every one of its call sites, the helper's parameters
+// standing for the call's arguments.
+func nonNilGuardedUp(b *ssa.BasicBlock, v ssa.Value, depth int) bool {
+	if nonNilGuarded(b, facts.Term(v)) {
+		return true
+	}
+	h := b.Parent()
+	if depth <= 0 || h.Parent() != nil {
+		return false
+	}
+	sites := privateCallSites(h)
+	if len(sites) == 0 {
+		return false
+	}
+	for _, site := range sites {
+		ok := false
+		withParams(h, site, func() {
+			tm := facts.Term(v)
+			if nonNilGuarded(site.Block(), tm) {
+				ok = true
+				return
+			}
+			// the term is now expressed in the caller's values: climb further
+			g := site.Parent()
+			if depth > 1 && g.Parent() == nil {
+				up := privateCallSites(g)
+				if len(up) > 0 {
+					all := true
+					for _, s2 := range up {
+						hit := false
+						withParams(g, s2, func() { hit = nonNilGuarded(s2.Block(), facts.Term(v)) })
+						all = all && hit
+					}
+					ok = all
+				}
+			}
+		})
+		if !ok {
+			return false
+		}
+	}
+	return true
+}
+
+// withParams runs f with h's parameters bound to the terms of site's arguments.
+func withParams(h *ssa.Function, site ssa.CallInstruction, f func()) {
+	args := site.Common().Args
+	if len(args) != len(h.Params) {
+		f()
+		return
+	}
+	terms := make([]string, len(args))
+	for i, a := range args {
+		terms[i] = facts.Term(a)
+	}
+	type sv struct {
+		s   string
+		had bool
+	}
+	saved := make([]sv, len(args))
+	for i, p := range h.Params {
+		s0, had := facts.ParamSubst[p]
+		saved[i] = sv{s0, had}
+		facts.ParamSubst[p] = terms[i]
+	}
+	defer func() {
+		for i, p := range h.Params {
+			if saved[i].had {
+				facts.ParamSubst[p] = saved[i].s
+			} else {
+				delete(facts.ParamSubst, p)
+			}
+		}
+	}()
+	f()
+}
+
+// program-wide index of static call sites and of functions used as values
+type progIndex struct {
+	callers map[*ssa.Function][]ssa.CallInstruction
+	asValue map[*ssa.Function]bool
+	invoked map[string]bool // method names called through an interface
+}
+
+var pIdx *progIndex
+
+func buildProgIndex(c *core.Ctx) {
+	ix := &progIndex{callers: map[*ssa.Function][]ssa.CallInstruction{}, asValue: map[*ssa.Function]bool{}, invoked: map[string]bool{}}
+	origin := func(f *ssa.Function) *ssa.Function {
+		if o := f.Origin(); o != nil {
+			return o
+		}
+		return f
+	}
+	for _, fn := range c.P.AllFunctions() {
+		if !load.InModule(fn) {
+			continue
+		}
+		for _, b := range fn.Blocks {
+			for _, in := range b.Instrs {
+				var callee ssa.Value
+				if ci, ok := in.(ssa.CallInstruction); ok {
+					cc := ci.Common()
+					if cc.IsInvoke() {
+						ix.invoked[cc.Method.Name()] = true
+					} else {
+						callee = cc.Value
+						if sc := cc.StaticCallee(); sc != nil {
+							if fn.Synthetic != "" {
+								ix.asValue[origin(sc)] = true // wrapper / bound method: may be called dynamically
+							} else if !isInstance(fn) {
+								ix.callers[origin(sc)] = append(ix.callers[origin(sc)], ci)
+							}
+						}
+					}
+				}
+				for _, op := range in.Operands(nil) {
+					if op == nil || *op == nil || *op == callee {
+						continue
+					}
+					if f, ok := (*op).(*ssa.Function); ok {
+						ix.asValue[origin(f)] = true
+					}
+				}
+			}
+		}
+	}
+	pIdx = ix
+}
+
+// privateCallSites: the static call sites of h if h is a private helper — an
+// unexported package-level function or method of the module that is never used
+// as a value nor callable through an interface; nil otherwise.
+func privateCallSites(h *ssa.Function) []ssa.CallInstruction {
+	if pIdx == nil || h == nil || h.Parent() != nil || h.Object() == nil || h.Object().Exported() || !load.InModule(h) {
+		return nil
+	}
+	if o := h.Origin(); o != nil {
+		h = o
+	}
+	if pIdx.asValue[h] {
+		return nil
+	}
+	if h.Signature.Recv() != nil && pIdx.invoked[h.Name()] {
+		return nil
+	}
+	return pIdx.callers[h]
 }
 
 // checkFilterCallbackReturns: in every callback literal with signature
